@@ -458,6 +458,42 @@ class GenA:
 
 
 # ---------------------------------------------------------------------------------------------
+# part A, chain family: every operator at every position of comparison chains of 2..4 operators
+# over operands that are equal by value but differ in kind (true / 1 / 1.0, false / 0 / 0.0, a list
+# and the lazy concatenation of its halves, a string and its safe twin, a map and the same map
+# written in another key order).  A chain folds with ==, the VM compares the non-final links with
+# CompareAndPreserve: literal and hoisted forms must agree for every operator there too.
+# ---------------------------------------------------------------------------------------------
+def chain_family(rng, extra):
+    I = lambda n: ("int", n)
+    S = lambda x: ("str", x)
+    T, F, ONE, ZERO = ("bool", True), ("bool", False), I(1), I(0)
+    ONEF, ZEROF = ("float", f2b(1.0)), ("float", f2b(0.0))
+    L12, L12C, T12 = ("list", [I(1), I(2)]), ("bin", "+", ("list", [I(1)]), ("list", [I(2)])), ("tuple", [I(1), I(2)])
+    SA, SAS = S("a"), ("filter", "safe", S("a"), [], [])
+    M1, M2 = ("map", [(S("a"), I(1)), (S("b"), I(2))]), ("map", [(S("b"), I(2)), (S("a"), I(1))])
+    BIG, BIGF = I(2 ** 63), ("float", f2b(9.223372036854775808e18))
+    pairs = [(T, ONE), (T, ONEF), (ONE, ONEF), (F, ZERO), (F, ZEROF), (ZERO, ZEROF), (L12, L12C), (L12, T12), (SA, SAS), (M1, M2), (BIG, BIGF),
+             (("list", []), ("tuple", [])), (S(""), ("none",)), (ONE, S("1"))]
+    pool = [T, F, ONE, ZERO, ONEF, ZEROF, L12, L12C, T12, SA, SAS, M1, M2, ("none",), S(""), ("list", []), I(2), S("b")]
+    ops = ["==", "!=", "<", "<=", ">", ">="]
+    out = []
+    for a, b in pairs + [(y, x) for x, y in pairs]:
+        for nops in (2, 3, 4):
+            for pos in range(nops):
+                for op in ("==", "!="):
+                    # the links before `pos` hold (a == a), so that evaluation reaches the link under test
+                    operands = [a] * (pos + 1) + [b] + [rng.choice([a, b, rng.choice(pool)]) for _ in range(nops - pos - 1)]
+                    chain = [("==", operands[i + 1]) for i in range(pos)] + [(op, operands[pos + 1])] + \
+                            [(rng.choice(ops), operands[i + 1]) for i in range(pos + 1, nops)]
+                    out.append(("cmp", operands[0], chain))
+    for _ in range(extra):
+        nops = 2 + rng.below(3)
+        out.append(("cmp", rng.choice(pool), [(rng.choice(ops + ["==", "!=", "in", "notin"]), rng.choice(pool)) for _ in range(nops)]))
+    return out
+
+
+# ---------------------------------------------------------------------------------------------
 # generator C (core fragment, where Lang/Interp.v is faithful: typed so that no operator meets
 # operand kinds the reference evaluator does not model)
 # ---------------------------------------------------------------------------------------------
@@ -535,9 +571,59 @@ class GenL:
         c = r.below(4)
         return ("int", r.choice(L_INT)) if c == 0 else ("str", r.choice(L_STR)) if c == 1 else ("bool", r.chance(1, 2)) if c == 2 else ("none",)
 
+    def mkey(self, d):
+        """a map key: a constant scalar (str / int / bool / none), now and then a computed one"""
+        r = self.r
+        c = r.below(10)
+        if c <= 3: return ("str", r.choice(["a", "b", "z", "", "A b"]))
+        if c <= 5: return ("int", r.choice([0, 1, 2, 255]))
+        if c == 6: return ("bool", r.chance(1, 2))
+        if c == 7: return ("none",)
+        if c == 8: return ("var", r.choice(["cs", "ci"]))
+        return self.s(d - 1) if d > 0 and r.chance(1, 2) else self.i(max(d - 1, 0))
+
+    def m(self, d):
+        """a map: literal (constant or computed keys and values, duplicate keys included) or the context's map"""
+        r = self.r
+        if r.chance(1, 6): return ("var", "cm")
+        n = r.below(4)
+        const = r.chance(1, 2)
+        pairs = []
+        for _ in range(n):
+            k = self.mkey(0 if const else d)
+            v = self.atom() if const or d <= 0 or r.chance(1, 2) else self.scalar(d - 1)
+            pairs.append((k, v))
+        if pairs and r.chance(1, 5):
+            pairs.append((pairs[0][0], self.atom()))          # the same key again: the last value wins
+        return ("map", pairs)
+
+    def muse(self, d):
+        """an expression that uses a map where the folder may meet it"""
+        r = self.r
+        c = r.below(9)
+        if c == 0: return self.m(d)
+        if c == 1: return ("filter", "length", self.m(d), [], [])
+        if c == 2: return ("cmp", self.mkey(d), [(r.choice(["in", "notin"]), self.m(d))])
+        if c == 3: return ("cmp", self.m(d), [(r.choice(["==", "!="]), self.m(d))])
+        if c == 4: return ("item", self.m(d), self.mkey(0))
+        if c == 5: return (r.choice(["and", "or"]), self.m(d), self.any(max(d - 1, 0)))
+        if c == 6: return ("not", self.m(d))
+        if c == 7: return ("test", "mapping", self.m(d) if r.chance(2, 3) else self.any(max(d - 1, 0)), [], r.chance(1, 4))
+        return ("cmp", self.m(d), [("==", self.m(d)), (r.choice(["==", "!="]), self.m(d))])
+
+    def eqchain(self, d):
+        """==/!= chains over scalars that are equal across kinds (true == 1, false == 0)"""
+        r = self.r
+        pool = [("bool", True), ("int", 1), ("bool", False), ("int", 0), ("str", "a"), ("none",), ("int", 2), ("str", "")]
+        return ("cmp", r.choice(pool), [(r.choice(["==", "!="]), r.choice(pool) if r.chance(3, 4) else self.i(max(d - 1, 0)))     # (<= / >= across bool and int: Lang/Interp.v decides them with ==, the engine by kind)
+                                        for _ in range(2 + r.below(3))])
+
     def any(self, d):
         r = self.r
-        c = r.below(8)
+        c = r.below(11)
+        if c == 8: return self.muse(d)
+        if c == 9: return self.muse(d) if r.chance(1, 2) else self.eqchain(d)
+        if c == 10: return self.eqchain(d)
         if c == 0: return self.i(d)
         if c == 1: return self.s(d)
         if c == 2: return self.b(d)
@@ -561,7 +647,7 @@ def to_lang(e):
     return rb([to_lang(k) for k in ks]) if ks else e
 
 
-LANG_CTX = {"ci": 5, "cs": "ctx", "cl": [1, 2, 3]}
+LANG_CTX = {"ci": 5, "cs": "ctx", "cl": [1, 2, 3], "cm": {"a": 1, "z": "q", 2: "two"}}
 
 
 def tv_py(v):
@@ -570,6 +656,7 @@ def tv_py(v):
     if isinstance(v, int): return {"t": "int", "v": str(v)}
     if isinstance(v, str): return {"t": "str", "v": v}
     if isinstance(v, list): return {"t": "list", "v": [tv_py(x) for x in v]}
+    if isinstance(v, dict): return {"t": "map", "v": [[tv_py(k), tv_py(x)] for k, x in v.items()]}
     raise ValueError(v)
 
 
@@ -596,6 +683,11 @@ def sv_enc(sv):
         for x in sv["v"]:
             out += sv_enc(x)
         return out
+    if k == "map":                                   # Runner.v::enc_value: 8 n (k v)*, entries in the map's own order
+        out = [8, len(sv["v"])]
+        for a, b in sv["v"]:
+            out += sv_enc(a) + sv_enc(b)
+        return out
     return ["other:" + str(k)]
 
 
@@ -609,6 +701,11 @@ def fold_part(out):
         if t == 5:
             j = i + 2
             for _ in range(out[i + 1]):
+                j = val(j)
+            return j
+        if t == 8:
+            j = i + 2
+            for _ in range(2 * out[i + 1]):
                 j = val(j)
             return j
         return i + 1
@@ -633,6 +730,11 @@ def model_norm(out):
         if t == 5:
             j = i + 2
             for _ in range(out[i + 1]):
+                j = val(j)
+            return j
+        if t == 8:
+            j = i + 2
+            for _ in range(2 * out[i + 1]):
                 j = val(j)
             return j
         return i + 1
@@ -1051,7 +1153,7 @@ def main():
     chk.assumptions = [
         "part A: expressions over the literal syntax (unary, + - * / // % **, ~, comparison chains, and/or/not, in / not in, lists, tuples, maps, negated literals, if-expressions, subscripts, slices, filters and functions with literal keyword arguments, macro calls with keyword arguments, tests); ints from a boundary pool up to 2^128-1, floats by bit pattern (no NaN/inf literals exist), short strings; <= 6 literals: every subset hoisted; 4 undefined behaviours",
         "part D: collection literals (lists, tuples, maps with int/str/bool/none keys incl. duplicates) and calls of two probe callables (function `cargs`, filter `cfilt`: they return what they were given) with positional, keyword, `*x` and `**m` arguments, duplicate keywords, literal and hoisted values; BTreeMap build of the engine (no preserve_order)",
-        "part C: core fragment of Lang/Interp.v (unbounded ints represented up to i128, ASCII strings, bools, none, lists; typed so that operators meet the operand kinds the reference evaluator models)",
+        "part C: core fragment of Lang/Interp.v (unbounded ints represented up to i128, ASCII strings, bools, none, lists, maps with scalar keys - literals with constant / computed / duplicate keys, a map variable, `in`, ==, subscripts, length, truthiness -, ==/!= chains across bool/int; typed so that operators meet the operand kinds the reference evaluator models)",
         "a value is 'the same' when it is built from the literal's text exactly like the parser's constant (u64 if it fits, else u128; negated units: i64 if it fits, else i128)"]
     okm, blog = build_models("C04")
     proofs_ok = chk.run_proofs()
@@ -1090,6 +1192,13 @@ def main():
             seeds = []
         for s in seeds:
             exprs.append((s, "lenient"))
+        fam = chain_family(chk.rng, 2000 if chk.thorough else 150)
+        if os.environ.get("C04_NO_SEEDS"):
+            fam = []
+        for e in fam:
+            exprs.append((e, chk.rng.choice(MODES)))
+            hist["partA_chain_family"] += 1
+        n += len(fam)
         tries = 0
         while len(exprs) < n and tries < 20 * n:
             tries += 1
@@ -1222,7 +1331,13 @@ def main():
                   ("cmp", ("int", 1), [("notin", ("list", [("int", 1)]))]), ("list", [("neg", ("int", 1))]), ("bin", "//", ("int", 1), ("int", 0)),
                   ("cmp", ("int", 3), [(">", ("int", 2)), (">", ("int", 1)), (">", ("bin", "//", ("int", 1), ("int", 0)))]),
                   ("cmp", ("int", 1), [(">", ("int", 2)), (">", ("bin", "//", ("int", 1), ("int", 0)))]),
-                  ("cmp", ("int", 1), [(">", ("int", 2)), ("in", ("int", 3))])]:
+                  ("cmp", ("int", 1), [(">", ("int", 2)), ("in", ("int", 3))]),
+                  ("map", [(("str", "b"), ("int", 1)), (("str", "a"), ("int", 2)), (("str", "b"), ("int", 3))]),
+                  ("map", [(("bool", True), ("int", 1)), (("int", 1), ("int", 2)), (("none",), ("str", "n"))]),
+                  ("map", [(("var", "cs"), ("int", 1)), (("str", "a"), ("neg", ("int", 2)))]),
+                  ("item", ("map", [(("str", "a"), ("int", 1))]), ("str", "a")), ("or", ("map", []), ("var", "cm")),
+                  ("cmp", ("str", "z"), [("in", ("var", "cm"))]),
+                  ("cmp", ("int", 1), [("==", ("bool", True)), ("==", ("int", 1))]), ("cmp", ("int", 1), [("!=", ("bool", True)), ("!=", ("int", 0))])]:
             lexprs.append((s, "lenient"))
         while len(lexprs) < nl:
             e = gl.any(1 + chk.rng.below(3))
@@ -1329,13 +1444,13 @@ def main():
         vs = variants_of(cur)
         rr = run_c04([request_for(cur, md, vs)], rel)[0] if count_atoms(cur) else None
         b = disagreements(vs, rr) if rr else []
-        rep = {"template": "{{ " + src(cur) + " }}", "context": LANG_CTX, "undefined": md, "profile": "release" if rel else "debug",
+        rep = {"template": "{{ " + src(cur) + " }}", "context": {n: tv_py(v) for n, v in LANG_CTX.items()}, "undefined": md, "profile": "release" if rel else "debug",
                "engine": {"folded_then_value": ex, "ops": (it or {}).get("ops")}, "model_fixed_folder": mm, "model_folder_as_found": mo,
                "lang_ast": repr(cur), "form": which}
         if which == "hoisted":
             full, hctx = hoist_atoms(e, set(range(count_atoms(e))))
             rep["template"] = "{{ " + src(full) + " }}"
-            rep["context"] = dict(LANG_CTX, **{n: py_tv(v) for n, v in hctx.items()})
+            rep["context"] = dict({n: tv_py(v) for n, v in LANG_CTX.items()}, **hctx)
         if mo is not None and fold_part(ex) == fold_part(model_norm(mo)) and fold_part(ex) != fold_part(model_norm(mm)):
             old_explains += 1
             rep["note"] = "the engine behaves like the model of ast.rs as found (as_const_old), not like the repaired folder"
